@@ -152,10 +152,11 @@ NTasks(P) == Len(P.tasks)
 AllOps(P) == UNION {{<<t, k, i>> : i \in 1..Len(P.tasks[t].segs[k].ops)} : <<t, k>> \in
                      UNION {{<<t, k>> : k \in 1..Len(P.tasks[t].segs)} : t \in 1..NTasks(P)}}
 OpAt(P, x) == P.tasks[x[1]].segs[x[2]].ops[x[3]]
-YieldOnly(P) == \A x \in AllOps(P) : OpAt(P, x).o \notin {"sync", "ival"}
+NoNestKind(P) == \A k \in 1..Len(P.kinds) : P.kinds[k].flush # "nest"
+YieldOnly(P) == NoNestKind(P) /\ \A x \in AllOps(P) : OpAt(P, x).o \notin {"sync", "ival"}
 HasCtxType(P, ty) == \E c \in 1..Len(P.ctxs) : P.ctxs[c].type = ty
 NoFaultyCtx(P) == \A c \in 1..Len(P.ctxs) : P.ctxs[c].faulty = "-"
-NoSpawnKind(P) == \A k \in 1..Len(P.kinds) : P.kinds[k].flush \notin {"spawn", "throw"}
+NoSpawnKind(P) == \A k \in 1..Len(P.kinds) : P.kinds[k].flush \notin {"spawn", "throw", "nest"}
 NoThrowKind(P) == \A k \in 1..Len(P.kinds) : P.kinds[k].flush # "throw"
 \* exceptions that end a computation from outside the data flow: the runaway-recursion RuntimeError (80000) and
 \* an exception raised by BatchBase.flush() itself (31000 + kind)
